@@ -1157,6 +1157,7 @@ class UnixCloseRun:
         self.order: list[str] = []
         self.closed_while_registered = False
         self.closed_op = False
+        self.cancel_pending = [False, False]
 
     def __enter__(self):
         import anyio
@@ -1212,7 +1213,9 @@ class UnixCloseRun:
         if p.at_decision:
             return 0
         if self.world.runnable(p):
-            return 2 if p.task.cancelling() else 1
+            # whether THIS call has a cancellation pending is harness history (a Cancel op since its Begin): Task.cancelling()
+            # is a sticky counter - a puppet that swallowed an earlier CancelledError without uncancel() keeps it > 0
+            return 2 if self.cancel_pending[d] else 1
         return 3
 
     def state_obs(self):
@@ -1256,12 +1259,14 @@ class UnixCloseRun:
             else:
                 async def cmd(p):
                     return await stream.send(b"m")
+            self.cancel_pending[a] = False
             w.act(a + 1, cmd)
         elif c == C_STEP:
             d, ans = a // 4, a % 4
             self.sock.answer[d] = ans
             out = w.resume(d + 1)
             if out is not None and out[0] != "blocked":
+                self.cancel_pending[d] = False
                 an = self.anyio
                 if out[0] == "ok":
                     res = 0
@@ -1283,6 +1288,7 @@ class UnixCloseRun:
             cb(*args)
         elif c == C_CANCEL:
             w.puppets[a + 1].task.cancel()
+            self.cancel_pending[a] = True
         elif c == C_CALLBACK:
             w.loop.run_handle(self.cb_handle(a))
         else:
